@@ -123,3 +123,51 @@ def fixed_charsets(items, flags=0) -> Optional[List[Set[int]]]:
             return None
         out.append(cs)
     return out
+
+
+def group_vars(fn: ast.AST):
+    """{variable name: capture group number} for locals of `fn` bound to a
+    capture group of some match: v = m.group(k); a, b = m.group(i, j);
+    a, b, c = m.groups(); plus plain copies (w = v)."""
+    out = {}
+    for n in ast.walk(fn):
+        if not isinstance(n, ast.Assign) or len(n.targets) != 1:
+            continue
+        t, v = n.targets[0], n.value
+        if not (isinstance(v, ast.Call) and isinstance(v.func, ast.Attribute)):
+            continue
+        if v.func.attr == 'group' and isinstance(t, ast.Name) and \
+                len(v.args) == 1 and isinstance(v.args[0], ast.Constant):
+            out[t.id] = v.args[0].value
+        elif v.func.attr == 'group' and isinstance(t, (ast.Tuple, ast.List)) \
+                and len(v.args) == len(t.elts) and all(
+                    isinstance(a, ast.Constant) for a in v.args):
+            for el, a in zip(t.elts, v.args):
+                if isinstance(el, ast.Name):
+                    out[el.id] = a.value
+        elif v.func.attr == 'groups' and isinstance(t, (ast.Tuple, ast.List)):
+            for i, el in enumerate(t.elts):
+                if isinstance(el, ast.Name):
+                    out[el.id] = i + 1
+    changed = True
+    while changed:
+        changed = False
+        for n in ast.walk(fn):
+            if isinstance(n, ast.Assign) and len(n.targets) == 1 and \
+                    isinstance(n.targets[0], ast.Name) and \
+                    isinstance(n.value, ast.Name) and \
+                    n.value.id in out and n.targets[0].id not in out:
+                out[n.targets[0].id] = out[n.value.id]
+                changed = True
+    return out
+
+
+def group_of(expr: ast.AST, gv) -> Optional[int]:
+    """capture group an expression denotes: m.group(k) or a variable of gv"""
+    if isinstance(expr, ast.Call) and isinstance(expr.func, ast.Attribute) \
+            and expr.func.attr == 'group' and len(expr.args) == 1 and \
+            isinstance(expr.args[0], ast.Constant):
+        return expr.args[0].value
+    if isinstance(expr, ast.Name):
+        return gv.get(expr.id)
+    return None
